@@ -62,6 +62,14 @@ def tableP : P UxdaAlgebra.Table := do
   | some ps => pure (fun k => ps.getD (kindCode k) .replace)
   | none => failure
 
+def copyApiOf : Nat → Option CopyApi
+  | 0 => some .default | 1 => some .deepTrue | 2 => some .deepFalse | 3 => some .data
+  | 4 => some .deepTrueData | 5 => some .deepFalseData | 6 => some .pyCopy | 7 => some .pyDeepcopy
+  | _ => none
+
+def allCopyApis : List CopyApi :=
+  [.default, .deepTrue, .deepFalse, .data, .deepTrueData, .deepFalseData, .pyCopy, .pyDeepcopy]
+
 def opP : P Op := do
   match (← nat) with
   | 0 => do return .elem (← kindP)
@@ -84,6 +92,11 @@ def opP : P Op := do
   | 15 => do let g ← nat; let d ← dimP; return .remap g d
   | 16 => do let c ← bool; let k ← countsP; return .getDual c k
   | 17 => do let k ← nat; let l ← bool; return .expandDims k l
+  | 18 => do
+      let a ← nat; let f ← bool
+      match copyApiOf a with
+      | some api => return Op.ofCopy api f
+      | none => failure
   | _ => failure
 
 def encDims (ds : Dims) : String :=
@@ -115,6 +128,9 @@ def handle (cmd : String) (args : List Int) : Option String :=
   | "C10.inv" => do
       let s ← run stateP args
       pure (encBool (attachedB s))
+  | "C10.copydeep" => do
+      run (pure ()) args
+      pure (encNats (allCopyApis.map (fun a => if a.deep then 1 else 0)))
   | "C10.asis" => do
       run (pure ()) args
       pure (encNats (allKinds.map (fun k => pathCode (asIs k))))
